@@ -2,7 +2,7 @@
    Proofs/MetaFacts.v about Model/Node.v (as_reclass; render_node computes name, uri and the
    parts passed in).  The node name/uri/environment fields and the referencability of
    _reclass_ are compared with a Python reading of the property on every run. *)
-From RV Require Import Model.Names Model.Node Proofs.MetaFacts Proofs.NamesRule Proofs.MetaNode.
+From RV Require Import Model.Names Model.Node Proofs.MetaFacts Proofs.NamesRule Proofs.MetaNode Proofs.WfFacts Proofs.NodeFacts Proofs.MetaPresent.
 
 (** The injected parameter: environment base, name {full, parts, path, short} with path = parts
     joined by "/", short = last part. *)
@@ -59,6 +59,30 @@ Theorem C18_parts_of_a_discovered_node :
     strip_ext_path (dirs ++ [(stem ++ "." ++ ext)%string]) = dirs ++ [stem].
 Proof. exact parts_of_a_discovered_node. Qed.
 Eval cbv in "ASSUMPTIONS-OF C18_parts_of_a_discovered_node"%string. Print Assumptions C18_parts_of_a_discovered_node.
+
+(** The metadata is delivered whatever the node defines itself -- nothing at all, applications only,
+    classes, parameters: the parameters of every rendered node hold `_reclass_` (it is inserted first,
+    merging only adds keys, rendering keeps the keys of a mapping; Proofs/MetaPresent.v). *)
+Theorem C18_rendered_node_holds_the_metadata :
+  forall f fi cfg tbl n meta r,
+    clean_table tbl -> wf (VMap (n_params n)) ->
+    node_render f fi cfg tbl n meta = Ok r ->
+    exists v, m_get (VStr "_reclass_") (n_params r) = Some v.
+Proof. exact rendered_node_holds_the_metadata. Qed.
+Eval cbv in "ASSUMPTIONS-OF C18_rendered_node_holds_the_metadata"%string. Print Assumptions C18_rendered_node_holds_the_metadata.
+
+(** non-vacuity: a node file that is an empty document *)
+Example C18_bare_node_nonvacuous :
+  let cfg := {| c_ignore := false; c_matches := []; c_compose := false; c_literal_dots := false |} in
+  exists n r, node_of_yaml [] (YMap []) = Ok n /\ wf (VMap (n_params n)) /\
+    node_render 5 40 cfg [] n {| m_name := "bare"; m_uri := ""; m_parts := ["bare"] |} = Ok r /\
+    m_get (VStr "_reclass_") (n_params r) =
+      Some (VMap [mk_entry (VStr "environment") (VLit "base") false false;
+                  mk_entry (VStr "name") (VMap [mk_entry (VStr "full") (VLit "bare") false false;
+                                                mk_entry (VStr "parts") (VSeq [VLit "bare"]) false false;
+                                                mk_entry (VStr "path") (VLit "bare") false false;
+                                                mk_entry (VStr "short") (VLit "bare") false false]) false false]).
+Proof. cbn zeta. eexists. eexists. split; [reflexivity|]. split; [cbn; repeat split; constructor|]. split; vm_compute; reflexivity. Qed.
 
 Example C18_nonvacuous :
   as_reclass {| c_ignore := false; c_matches := []; c_compose := true; c_literal_dots := false |}
